@@ -252,6 +252,12 @@ func run(c *mon.Ctx) {
 		stuff := 0
 		if r.Chance(3) {
 			stuff = 1 + r.Intn(8)
+			if r.Chance(8) {
+				// (whatever the encoder makes of stuffing that does not fit a section any more, the bytes it hands
+				// out end with their own checksum)
+				stuff = r.PickInt([]int{3000, 4000, 4050, 4080, 4093, 4100, 5000})
+				c.Count("emitted_scte35.alignment_stuffing_of_thousands_of_bytes")
+			}
 			s.SetAlignmentStuffing(uint(stuff))
 		}
 		sec := s.UpdateData()
@@ -334,6 +340,25 @@ func run(c *mon.Ctx) {
 				c.Fail("crc:emitted-scte35-second-encoding-unchanged", "a change made through "+edits+" left the next encoding unchanged", wit{Input: mon.Hex(sec2)})
 			}
 		}
+	})
+	// one byte string checksummed by several goroutines at once (the function only reads its argument)
+	c.Stream("concurrent-readers-of-one-string", c.N(8, 200), func(i int, r *gen.Rand) {
+		c.ConcurrentReaders("byte string under ComputeCRC", c.N(300, 300), r, func(q *gen.Rand) func() string {
+			in := q.Bytes(q.PickInt([]int{4, 5, 16, 188, 1024, 1 + q.Intn(300)}))
+			snap := append([]byte{}, in...)
+			want := ref.BE32(ref.CRC32MPEG2(snap))
+			return func() string {
+				got := gots.ComputeCRC(in)
+				if !bytes.Equal(got, want) {
+					return fmt.Sprintf("ComputeCRC of a shared %d-byte string returned %x, CRC-32/MPEG-2 is %x", len(in), got, want)
+				}
+				if !bytes.Equal(in, snap) {
+					return "the string was seen modified while checksums of it were being computed"
+				}
+				return ""
+			}
+		})
+		c.Class("concurrent-readers-of-one-string")
 	})
 	// the emitters from several goroutines at once, each with a PMT / a message of its own: every emitted section
 	// has a zero checksum
